@@ -55,6 +55,9 @@ ProdSet(k) ==
     [] k = 6 -> { [g |-> "Prod", fs |-> <<a, b>>] : a \in SE3Set("mrp",  {<<1,1,0,0>>, <<2,0,1,-1>>}, {<<1,-2,0>>}), b \in RnSet(R3Small) }
     [] k = 7 -> { [g |-> "Prod", fs |-> <<a, b>>] : a \in SE3Set("quat", {<<1,1,0,0>>}, {<<1,-2,0>>}), b \in SE3Set("mrp", {<<2,0,1,-1>>}, {<<3,1,1>>}) }
     [] k = 8 -> { [g |-> "Prod", fs |-> <<a, b>>] : a \in SE3Set("mrp", {<<2,0,1,-1>>}, {<<3,1,1>>}), b \in SE3Set("quat", {<<1,1,0,0>>}, {<<1,-2,0>>}) }
+    (* the SAME group object more than once, with different values in the repeated factors *)
+    [] k = 9  -> { [g |-> "Prod", fs |-> <<a, b>>] : a \in RnSet({<<1,0,-2>>, <<3,1,1>>}), b \in RnSet({<<0,0,0>>, <<-1,2,5>>}) }
+    [] k = 10 -> { [g |-> "Prod", fs |-> <<a, b, c>>] : a \in SO2Set({<<3,4,5>>, <<0,-1,1>>}), b \in RnSet(R2Small), c \in SO2Set({<<-4,-3,5>>, <<1,0,1>>}) }
 
 (* families: each family is a set of mutually composable elements *)
 Thorough == Tier = "thorough"
@@ -64,9 +67,9 @@ Thorough == Tier = "thorough"
 EulerNearPole == { QMul(QMul(z, y), x) : z \in {<<2,0,0,1>>, <<1,0,0,-1>>},
                                           y \in {<<501,0,500,0>>, <<401,0,-400,0>>, <<301,0,300,0>>},
                                           x \in {<<3,1,0,0>>, <<1,-1,0,0>>} }
-NFam == 25
+NFam == 27
 Families ==
-  [ k \in 1..25 |->
+  [ k \in 1..27 |->
     CASE k = 1  -> SO3Set("quat",  IF Thorough THEN QL2 ELSE QL1)
       [] k = 2  -> SO3Set("mrp",   IF Thorough THEN QL2 ELSE QL1)
       [] k = 3  -> SO3Set("dcm",   IF Thorough THEN QL2 ELSE QL1)
@@ -93,10 +96,12 @@ Families ==
       [] k = 22 -> { X \in SE3Set("dcm", QTri, TTri) : X.pd = 2 }
       [] k = 23 -> { X \in SE3Set("euler", QTri, TTri) : X.pd = 2 }
       [] k = 24 -> SE23Set("dcm", {<<1,1,0,0>>, <<2,1,0,-1>>}, {<<1,-2,0>>, <<3,1,1>>})
-      [] k = 25 -> SE23Set("euler", {<<1,1,0,0>>, <<2,1,0,-1>>}, {<<1,-2,0>>, <<3,1,1>>}) ]
+      [] k = 25 -> SE23Set("euler", {<<1,1,0,0>>, <<2,1,0,-1>>}, {<<1,-2,0>>, <<3,1,1>>})
+      [] k = 26 -> ProdSet(9)
+      [] k = 27 -> ProdSet(10) ]
 (* small sub-family used for associativity triples *)
 TriFamilies ==
-  [ k \in 1..25 |->
+  [ k \in 1..27 |->
     CASE k \in 1..4 -> { X \in Families[k] : X.q \in QTri \cup {<<0,1,0,0>>, <<-1,1,0,1>>} }
       [] k \in 5..6 -> { X \in Families[k] : X.q \in QTri /\ X.p \in TTri /\ X.pd = 2 }
       [] k \in 7..8 -> { X \in Families[k] : X.q \in {<<1,1,0,0>>, <<-1,0,1,1>>, <<2,1,0,-1>>} /\ X.p \in TTri /\ X.v \in {<<1,-2,0>>} }
@@ -129,7 +134,7 @@ V1(op, X, e)       == [op |-> op, a |-> <<X>>, exp |-> e]
 V2(op, X, Y, e)    == [op |-> op, a |-> <<X, Y>>, exp |-> e]
 V3(op, X, Y, Z, e) == [op |-> op, a |-> <<X, Y, Z>>, exp |-> e]
 
-Init == \E k \in 1..25 : \E X \in Families[k] : Valid(X) /\ tv = [op |-> "seed", a |-> <<X>>, fam |-> k]
+Init == \E k \in 1..27 : \E X \in Families[k] : Valid(X) /\ tv = [op |-> "seed", a |-> <<X>>, fam |-> k]
 
 Unary(X) ==
    \/ tv' = V1("mat", X, Mat(X))
@@ -139,7 +144,7 @@ Unary(X) ==
 (* building a direct product with `*` is a pure construction: an existing product object that is reused
    as the left operand of further `*` keeps its own factors, dimensions and matrix semantics
    (history quantifier: G = A*B;  G*R2;  G*SO3Quat;  G must still be A*B)                       *)
-ProdHist(X, k) == k \in (13..16) \cup (18..21) /\ tv' = [op |-> "prodhist", a |-> <<X>>, exp |-> Mat(X), ident |-> Mat(IdOf(X))]
+ProdHist(X, k) == k \in (13..16) \cup (18..21) \cup (26..27) /\ tv' = [op |-> "prodhist", a |-> <<X>>, exp |-> Mat(X), ident |-> Mat(IdOf(X))]
 Binary(X, k) == k # 17 /\ \E Y \in Families[k] :
    /\ Valid(Y) /\ Valid(Prod(X, Y))
    /\ tv' = V2("mul", X, Y, RMMul(Mat(X), Mat(Y)))
